@@ -17,7 +17,7 @@ META = {
                     "parking is compared on qubit-disjoint subsets only (a qubit taking part in two gates is never an accepted step)"],
     "exhaustive": {"quick": True, "thorough": True},
     "floors": {
-        "quick": {"subsets_checked": 2900, "parking_queries": 12000, "sequences_checked": 150, "sequence_generator_calls": 100, "non_divisible_generator_calls": 20, "accepted_subsets": 150, "rejected_subsets": 1500},
+        "quick": {"subsets_checked": 2900, "subset_orders_checked": 6000, "parking_queries": 12000, "sequences_checked": 150, "sequence_generator_calls": 100, "non_divisible_generator_calls": 10, "sequence_step_parking_checks": 300, "accepted_subsets": 150, "rejected_subsets": 1500},
         "thorough": {"subsets_checked": 15000, "parking_queries": 30000, "sequences_checked": 800},
     },
 }
@@ -110,6 +110,14 @@ def check_subset(idx: Tuple[int, ...], conn, model: Model, lib_edges, acc: Acc):
     want = model.accepted(gates)
     got = bool(GateSequenceGenerator.get_mutually_allowed([Operation.type_gate(lib_edges[i]) for i in idx], conn))
     acc.count("accepted_subsets" if want else "rejected_subsets")
+    if len(idx) >= 3:
+        # the verdict is about the SET of gates: the same gates listed in another order (deterministic rotation + reversal)
+        for order in (idx[::-1], idx[1:] + idx[:1], (idx[1], idx[0]) + tuple(idx[2:])):
+            acc.count("subset_orders_checked")
+            if bool(GateSequenceGenerator.get_mutually_allowed([Operation.type_gate(lib_edges[i]) for i in order], conn)) != want:
+                got = not want
+                case = {"edges": [list(model.edges[i]) for i in order]}
+                break
     if got != want:
         kind = "accepts-colliding" if got else "rejects-compatible"
         if not model.disjoint(gates):
@@ -159,6 +167,21 @@ def check_sequences(rng: random.Random, conn, model: Model, lib_edges, acc: Acc)
         if any(len(s) != k for s in steps):
             acc.finding("sequence/step-size", "an emitted gate sequence has a step of the wrong size", case, {"steps": steps})
             break
+        if count <= 12:
+            # parking reported per step of the emitted sequence (and carried into the layout built from it): exactly the idle
+            # qubits the parking rule names for THAT step's gates
+            reported = [sorted(op.identifier.id for op in ops) for ops in seq.get_required_parkings(conn)]
+            layers = seq.to_generic_surface_code(conn)
+            carried = [sorted(op.identifier.id for op in layers.get_gate_sequence_at_index(i).park_operations) for i in range(len(steps))]
+            for i, step in enumerate(steps):
+                oriented = [_orient(g, model) for g in step]
+                busy = {q for g in step for q in g}
+                want_park = sorted(q for q in model.qubits if q not in busy and model.requires_parking(q, oriented))
+                acc.count("sequence_step_parking_checks")
+                if i >= len(reported) or reported[i] != want_park or carried[i] != want_park:
+                    acc.finding("sequence/step-parking", "parking reported for a step of an emitted sequence is not exactly the set the parking rule names for that step", case,
+                                {"step": step, "reported": reported[i] if i < len(reported) else None, "carried_into_layout": carried[i], "model": want_park})
+                    break
     acc.count("sequence_generator_calls")
     acc.hist("sequences_per_call", min(count, 50) // 5 * 5)
     return case
